@@ -7,7 +7,12 @@ prop("C38",
      theorems=["NeoFS.IRNetmap.approve_iff_all_validators", "NeoFS.IRNetmap.firstError_is_first_failing", "NeoFS.IRNetmap.calledCount_eq",
                "NeoFS.IRNetmap.admission_order_independent", "NeoFS.IRNetmap.approved_node_facts", "NeoFS.IRNetmap.updatePeer_iff_alphabet",
                "NeoFS.IRNetmap.tick_requests_next_epoch", "NeoFS.IRNetmap.every_request_is_next", "NeoFS.IRNetmap.non_alphabet_never_requests",
-               "NeoFS.IRNetmap.state_after", "NeoFS.IRNetmap.applied_ticks_advance_by_one_each"],
+               "NeoFS.IRNetmap.state_after", "NeoFS.IRNetmap.applied_ticks_advance_by_one_each",
+               "NeoFS.IRNetmap.request_leaves_no_trace", "NeoFS.IRNetmap.state_ignores_requests",
+               "NeoFS.IRNetmap.verdict_independent_of_earlier_candidates", "NeoFS.IRNetmap.vs_constant", "NeoFS.IRNetmap.history_approve_iff",
+               "NeoFS.IRNetmap.repeated_candidate_same_verdict", "NeoFS.IRNetmap.history_epoch_refines",
+               "NeoFS.IRNetmap.history_tick_requests_next_epoch", "NeoFS.IRNetmap.snapshot_after_newEpoch",
+               "NeoFS.IRNetmap.admission_ignores_snapshot"],
      engines=[dict(name="irn", quick=1, thorough=1)],
      claim="Lean proves for EVERY validator list (any order, subset, repetition), candidate description and flag combination: processAddNode "
            "approves (NotarySignAndInvokeTX) iff the node is an alphabet node AND the notary main transaction's script halts AND the contract's node "
@@ -17,17 +22,39 @@ prop("C38",
            "domain and carries LOCODE attributes equal to the database record. Peer state updates are approved iff alphabet. For EVERY finite "
            "history of timer ticks, new-epoch notifications and alphabet membership changes: each tick makes an alphabet node request exactly "
            "(last notified epoch)+1 exactly once and a non-alphabet node nothing (tick_requests_next_epoch: outputs of pre ++ tick ++ post "
-           "decomposed; every_request_is_next; non_alphabet_never_requests); when requests are applied at once n ticks advance the epoch by n.",
+           "decomposed; every_request_is_next; non_alphabet_never_requests); when requests are applied at once n ticks advance the epoch by n. "
+           "HISTORIES against ONE processor and ONE CompositeValidator (hrun: admissions of the same and of other keys with changing content, peer "
+           "updates, ticks, notifications, alphabet changes, changes of the NNS records / of what a node serves / of the external policy / of the "
+           "contract's network map): a request leaves no trace in the processor (request_leaves_no_trace, state_ignores_requests), so the verdict on a "
+           "candidate - outcome, first rejecting validator, number of validators called - is the same after any two histories that differ only in the "
+           "requests made earlier (verdict_independent_of_earlier_candidates); after EVERY history a candidate is approved iff alphabet now AND script "
+           "halts AND structure converts AND every validator of the fixed list accepts the candidate in the world as it is NOW (history_approve_iff, "
+           "vs_constant); the epoch part of a mixed history runs exactly as the epoch model on its epoch events (history_epoch_refines, "
+           "history_tick_requests_next_epoch); the network map snapshot after a notification is the contract's map of that moment or is kept when the "
+           "map cannot be read, placements are updated iff it changed on an alphabet node, and it plays no role in admission "
+           "(snapshot_after_newEpoch, admission_ignores_snapshot).",
      note="The model follows the code of THIS tree: there is no cleanup table and processUpdatePeer checks nothing but the alphabet flag (the "
           "contract checks the witness) - the corresponding guidance items are therefore not claimed. Individual validators are short "
           "transcriptions with external look-ups as oracle bits (NNS record answer, availability probe, external validator, locode DB hit and "
           "per-field equality); state/structure/private-domains/locode run as REAL code in the tie (real locode DB), the availability and external "
           "validators are replaced by oracle stubs (they dial the network). IsValidScript is answered by the fake RPC endpoint. Epoch requests are "
-          "observed on a client without notary support (test invocation of newEpoch with its argument); uint64 wrap of counter+1 is not modelled.",
+          "observed on a client without notary support (test invocation of newEpoch with its argument); uint64 wrap of counter+1 is not modelled. "
+          "History ops (hinit..hepoch, eng_irn_hist.go) run against ONE processor built as in innerring.go (netmap client as alphabet, container "
+          "client, alphabet sync / notary deposit handlers) and ONE CompositeValidator for the whole sequence: state/structure/private-domains/locode "
+          "are the real validators (private domains over a fake NNS holding the records set by hnns), availability is a fake that compares the WHOLE "
+          "announced descriptor apart from its state with what the node serves (hserve), the external validator a fake policy over the announced "
+          "attribute values (hext). The oracle of hadd evaluates FRESH instances of every configured validator on the candidate before the processor "
+          "sees it. NewEpoch requests of that processor are notary invocations recognised by name through the morph client's interceptor; the "
+          "contract's node list is answered by the fake RPC endpoint as an in-place expanded iterator; the container list is empty (placement "
+          "update = the list was read).",
      rule="700 (thorough 6000) raw node infos x validator lists (the inner ring's list, shuffled lists, subsets) through the real CompositeValidator "
           "with call recording; 500 (4000) AddNode notary events through the real processAddNode (alphabet / script / state / validators); 150 "
           "(1500) histories of 4..15 ticks, notifications (2/3 the next epoch, 1/3 arbitrary) and alphabet changes through the real "
           "processNewEpochTick/processNewEpoch with a recording epoch state and timer; non-trivial = accepted candidate, approved node, or an "
-          "alphabet tick; distinct by op (tick: by op and epoch)",
+          "alphabet tick; distinct by op (tick: by op and epoch); 200 (2000) histories of 10..30 events against ONE processor and ONE "
+          "composite validator: 2..3 storage node keys re-announcing what they serve (2/3) or one changed field (state, endpoint, attribute set or "
+          "value, verified domain, locode; 1/3, a third of those after a real restart), world changes in between (NNS record added/removed/NNS down, "
+          "node stops answering / serves other content, external policy, contract's map), ticks, notifications, alphabet changes; non-trivial = "
+          "approved candidate by (candidate, validator list)",
      trusted=["Model/IRNetmap.lean is a hand transcription; tied by the line-by-line run", "harness/irfake.go answers for the FS chain"],
      assumptions=["the validator list passed to the processor is the one innerring.go composes (read, not extracted)"])
